@@ -22,6 +22,7 @@ type Obligation struct {
 	Pos    string
 	Note   string
 	Func   *FuncVC
+	Trivial bool  // the condition simplified to true while it was generated (discharged syntactically)
 	Raw    string // raw SMT-LIB text (bit-vector lemmas); replaces the generated query
 	Expect string // "unsat" normally; "sat" for must-fail twins / covers
 	Vars   []string // interesting model vars
@@ -256,9 +257,7 @@ func (fv *FuncVC) oblige(kind string, what string, cond Term, pos token.Pos, not
 	if what != "" {
 		base += ":" + what
 	}
-	if cond.S == "true" {
-		return nil
-	}
+	trivial := cond.S == "true"
 	n := fv.oblCount[base]
 	fv.oblCount[base] = n + 1
 	o := &Obligation{
@@ -271,11 +270,14 @@ func (fv *FuncVC) oblige(kind string, what string, cond Term, pos token.Pos, not
 		Pos:    fv.pos(pos),
 		Note:   note,
 		Func:   fv,
-		Expect: "unsat",
-		Block:  fv.curBlock,
+		Expect:  "unsat",
+		Block:   fv.curBlock,
+		Trivial: trivial,
 	}
 	fv.Obls = append(fv.Obls, o)
-	fv.assumeHere(cond)
+	if !trivial {
+		fv.assumeHere(cond)
+	}
 	return o
 }
 
